@@ -94,7 +94,7 @@ Compare(k, vs) == IF Len(vs) = 2 THEN RelOp(k, vs[1], vs[2])
 
 \* ---- numbers out: the JSON number for a computed double, or Err when not finite
 NumberToValue(f) ==
-  IF f.k # "fin" THEN Err
+  IF f.k # "fin" THEN ErrK(EK_UnexpectedError)
   ELSE IF FitsI64(f) THEN Ok(IntNum(f.s, IntMag(f)))
   ELSE IF FitsU64(f) THEN Ok(IntNum(0, IntMag(f)))
   ELSE Ok(FloatNum(f))
@@ -113,26 +113,26 @@ FoldF(op, fs, i, acc) ==
 AnyNaN(fs) == \E j \in DOMAIN fs : fs[j].k = "nan"
 
 Add(vs) == LET fs == [j \in DOMAIN vs |-> ParseFloatV(vs[j])]
-           IN IF AnyNaN(fs) THEN Err ELSE NumberToValue(FoldF("add", fs, 1, FZero))
+           IN IF AnyNaN(fs) THEN ErrK(EK_InvalidArgument) ELSE NumberToValue(FoldF("add", fs, 1, FZero))
 Mul(vs) == LET fs == [j \in DOMAIN vs |-> ParseFloatV(vs[j])]
-           IN IF AnyNaN(fs) THEN Err ELSE NumberToValue(FoldF("mul", fs, 1, FOne))
+           IN IF AnyNaN(fs) THEN ErrK(EK_InvalidArgument) ELSE NumberToValue(FoldF("mul", fs, 1, FOne))
 
 \* Number-style conversion for - / % min max
 Minus(vs) == LET fs == [j \in DOMAIN vs |-> ToNumber(vs[j])]
-             IN IF AnyNaN(fs) THEN Err
+             IN IF AnyNaN(fs) THEN ErrK(EK_InvalidArgument)
                 ELSE IF Len(vs) = 1 THEN NumberToValue(FNeg(fs[1]))
                 ELSE NumberToValue(FSub(fs[1], fs[2]))
 Div(vs) == LET fs == [j \in DOMAIN vs |-> ToNumber(vs[j])]
-           IN IF AnyNaN(fs) THEN Err ELSE NumberToValue(FDiv(fs[1], fs[2]))
+           IN IF AnyNaN(fs) THEN ErrK(EK_InvalidArgument) ELSE NumberToValue(FDiv(fs[1], fs[2]))
 Mod(vs) == LET fs == [j \in DOMAIN vs |-> ToNumber(vs[j])]
-           IN IF AnyNaN(fs) THEN Err ELSE NumberToValue(FRem(fs[1], fs[2]))
+           IN IF AnyNaN(fs) THEN ErrK(EK_InvalidArgument) ELSE NumberToValue(FRem(fs[1], fs[2]))
 RECURSIVE FoldMax(_, _, _), FoldMin(_, _, _)
 FoldMax(fs, i, acc) == IF i > Len(fs) THEN acc
                        ELSE FoldMax(fs, i + 1, IF FLtB(acc, fs[i]) THEN fs[i] ELSE acc)
 FoldMin(fs, i, acc) == IF i > Len(fs) THEN acc
                        ELSE FoldMin(fs, i + 1, IF FLtB(fs[i], acc) THEN fs[i] ELSE acc)
 MaxOp(vs) == LET fs == [j \in DOMAIN vs |-> ToNumber(vs[j])]
-             IN IF AnyNaN(fs) THEN Err ELSE NumberToValue(FoldMax(fs, 1, NInf))
+             IN IF AnyNaN(fs) THEN ErrK(EK_InvalidArgument) ELSE NumberToValue(FoldMax(fs, 1, NInf))
 MinOp(vs) == LET fs == [j \in DOMAIN vs |-> ToNumber(vs[j])]
-             IN IF AnyNaN(fs) THEN Err ELSE NumberToValue(FoldMin(fs, 1, PInf))
+             IN IF AnyNaN(fs) THEN ErrK(EK_InvalidArgument) ELSE NumberToValue(FoldMin(fs, 1, PInf))
 =============================================================================
